@@ -1728,6 +1728,24 @@ def _numbers(v, out):
             _numbers(x, out)
 
 
+def mixes_bool_with_zero_one(inst):
+    leaves = []
+
+    def walk(v):
+        if isinstance(v, dict):
+            for x in v.values():
+                walk(x)
+        elif isinstance(v, list):
+            for x in v:
+                walk(x)
+        else:
+            leaves.append(v)
+    walk(inst)
+    has_bool = any(isinstance(x, bool) for x in leaves)
+    has01 = any((not isinstance(x, bool)) and isinstance(x, (int, float)) and x in (0, 1) for x in leaves)
+    return has_bool and has01
+
+
 def mixes_float_with_wide_integer(schema, inst):
     ns = []
     _numbers(schema, ns)
@@ -1933,6 +1951,11 @@ def judge_batch(run, stage, exe, cases, rep_, fails, state):
                     run.count("%s.diff.reference_error_instances" % sn)
                     continue
                 if jv is None:
+                    continue
+                if '"uniqueItems"' in json.dumps(doc) and mixes_bool_with_zero_one(inst):
+                    # the reference's uniqueItems (sort-based, with an "unbool" rewrite of top-level items only) misjudges arrays whose
+                    # items hold false/0 or true/1 at deeper levels (observed: [[0],[false],[0]] reported unique); not judged by the differential
+                    run.count("%s.not_judged.uniqueItems_with_nested_bool_and_0_1" % sn)
                     continue
                 if mixes_float_with_wide_integer(doc, inst):
                     # a floating-point number next to integers beyond 2^53: comparison precision is implementation-defined (module docstring)
